@@ -16,6 +16,7 @@ import (
 	"bytes"
 	"context"
 	"fmt"
+	"io"
 	"math/rand"
 	"os"
 	"sync"
@@ -312,6 +313,87 @@ func xmlCase(rng *rand.Rand) *wire.Case {
 	return c
 }
 
+// ---- XML scanner, context cancelled from another goroutine while Scan is running through a long
+// run of tokens that yield no object (unknown elements).  The reader hands out small chunks; when
+// the byte count passes a threshold inside the run it lets another goroutine cancel the context
+// and waits for that to return (deterministic), then counts the Read calls that still follow.
+type xreader struct {
+	data      []byte
+	pos       int
+	threshold int
+	cancel    func()
+	fired     bool
+	after     int64 // Read calls that began after the cancel returned
+}
+
+func (r *xreader) Read(p []byte) (int, error) {
+	if r.fired {
+		r.after++
+	}
+	if !r.fired && r.pos >= r.threshold {
+		r.fired = true
+		done := make(chan struct{})
+		go func() { r.cancel(); close(done) }()
+		<-done
+	}
+	if r.pos >= len(r.data) {
+		return 0, io.EOF
+	}
+	n := 48
+	if n > len(p) {
+		n = len(p)
+	}
+	if n > len(r.data)-r.pos {
+		n = len(r.data) - r.pos
+	}
+	copy(p, r.data[r.pos:r.pos+n])
+	r.pos += n
+	return n, nil
+}
+
+func xmlCancelCase(rng *rand.Rand) *wire.Case {
+	before := 1 + rng.Intn(4)
+	skip := 400 + rng.Intn(800) // unknown elements between two objects (>= 9 KiB)
+	afterN := rng.Intn(3)
+	var b bytes.Buffer
+	b.WriteString(`<osm version="0.6">`)
+	for i := 1; i <= before; i++ {
+		fmt.Fprintf(&b, `<node id="%d" lat="1" lon="2" version="1"/>`, i)
+	}
+	runStart := b.Len()
+	for i := 0; i < skip; i++ {
+		fmt.Fprintf(&b, `<remark n="%d">x</remark>`, i)
+	}
+	runEnd := b.Len()
+	for i := 1; i <= afterN; i++ {
+		fmt.Fprintf(&b, `<node id="%d" lat="1" lon="2" version="1"/>`, before+i)
+	}
+	b.WriteString(`</osm>`)
+	doc := b.Bytes()
+	ctx, cancel := context.WithCancel(context.Background())
+	defer cancel()
+	thr := runStart + 4200 + rng.Intn(runEnd-runStart-8400) // well inside the run (the decoder buffers 4 KiB)
+	xr := &xreader{data: doc, threshold: thr, cancel: cancel}
+	sc := osmxml.New(ctx, xr)
+	var ids []int64
+	for sc.Scan() {
+		id := int64(-1)
+		if nd, ok := sc.Object().(*osm.Node); ok {
+			id = int64(nd.ID)
+		}
+		ids = append(ids, id)
+	}
+	errc := pipesup.ErrCode(sc.Err())
+	again := sc.Scan()
+	c := &wire.Case{Class: "xml-cancel3"}
+	c.Int(3).Int(int64(before)).Int(int64(skip)).Int(int64(afterN))
+	c.Ints(ids).Int(errc).Bool(again).Bool(xr.fired).Int(xr.after)
+	c.Desc = map[string]interface{}{"nodes_before_run": before, "unknown_elements_in_run": skip, "nodes_after_run": afterN,
+		"doc_bytes": len(doc), "cancel_from_other_goroutine_at_byte": thr, "delivered_ids": ids, "err": errc,
+		"scan_after_stop": again, "read_calls_after_cancel": xr.after, "bytes_pulled": xr.pos}
+	return c
+}
+
 func corrupt(c *wire.Case, kind int) *wire.Case {
 	d := c.Clone()
 	d.Canary = 1
@@ -407,6 +489,13 @@ func main() {
 		if firstXml == nil {
 			firstXml = c
 		}
+	}
+	nXc := int(30 * a.Scale)
+	if a.Tier == "thorough" {
+		nXc *= 10
+	}
+	for i := 0; i < nXc; i++ {
+		w.Add(xmlCancelCase(rng))
 	}
 	for canaryDone < 2 {
 		w.Add(corrupt(firstPbf, canaryDone))
